@@ -66,12 +66,26 @@ def cmdWf (files : List String) : IO UInt32 := do
 
 def b01 (b : Bool) : String := if b then "1" else "0"
 
+/-- `dataSize` computed arithmetically (the specification `Qbe.dataSize` materialises the image, which is hopeless for
+`z 9223372036854775807`); compared with `dataSize` itself whenever the object is small. -/
+def dataSizeFast (d : DataDef) : Nat :=
+  d.items.foldl (fun acc it =>
+    match it with
+    | .zero n => acc + n
+    | .vals t vs => vs.foldl (fun acc v => match v with
+        | .str s => acc + s.size
+        | _ => acc + t.size) acc) 0
+
+def sizeOf' (d : DataDef) : Nat :=
+  let f := dataSizeFast d
+  if f ≤ 1048576 then dataSize d else f
+
 def cmdSizes (file : String) : IO UInt32 := do
   match (← loadModule file) with
   | .error e => IO.println ("bad parse: " ++ e); return 1
   | .ok m =>
     for d in m.datas do
-      IO.println s!"{d.name} {dataSize d} {dataAlign d} {b01 d.export} {b01 d.thread}"
+      IO.println s!"{d.name} {sizeOf' d} {dataAlign d} {b01 d.export} {b01 d.thread}"
     return 0
 
 def cmdImage (file : String) : IO UInt32 := do
@@ -79,10 +93,21 @@ def cmdImage (file : String) : IO UInt32 := do
   | .error e => IO.println ("bad parse: " ++ e); return 1
   | .ok m =>
     for d in m.datas do
+      if dataSizeFast d > 1048576 then
+        IO.println s!"{d.name} {dataAlign d} -"      -- too large to materialise
+        continue
       let (img, rel) := d.image
       let rs := rel.foldl (fun s r => s ++ s!" reloc {r.off} {r.sym} {r.addend.toNat}") ""
       IO.println s!"{d.name} {dataAlign d} {hexBytes img}{rs}"
     return 0
+
+/-- `sizes`/`image` for many files in one process: the lines of each file are preceded by `== <file>`
+(process start-up dominates when hundreds of small modules are inspected one by one). -/
+def cmdMany (img : Bool) (files : List String) : IO UInt32 := do
+  for f in files do
+    IO.println ("== " ++ f)
+    let _ ← if img then cmdImage f else cmdSizes f
+  return 0
 
 /-- Split `--fuel N` out of an argument list. -/
 def takeFuel : List String → Nat → List String → Nat × List String
@@ -133,6 +158,8 @@ def main (args : List String) : IO UInt32 := do
   | "wf" :: files => cmdWf files
   | ["sizes", file] => cmdSizes file
   | ["image", file] => cmdImage file
+  | "sizesmany" :: files => cmdMany false files
+  | "imagemany" :: files => cmdMany true files
   | "run" :: file :: func :: rest => cmdRun file func rest
   | ["runmany", file] => cmdRunMany file
   | _ =>
